@@ -467,6 +467,9 @@ func c04CheckCopy(r *core.Run, b *atlas.Built, cop string) *core.Fail {
 		r.Op(1)
 		r.Outcome(cop + ":" + o.Class)
 		if o.Class != "ok" {
+			if lenient {
+				return nil
+			}
 			return core.F("unexpected-refusal", "x", "%s of layout %s: %s", cop, b.Layout, o)
 		}
 		if f := srcUnchanged(cop); f != nil {
@@ -491,6 +494,9 @@ func c04CheckCopy(r *core.Run, b *atlas.Built, cop string) *core.Fail {
 		r.Op(1)
 		r.Outcome(cop + ":" + o.Class)
 		if o.Class != "ok" {
+			if lenient {
+				return nil
+			}
 			return core.F("unexpected-refusal", "x", "SafeT of layout %s: %s", b.Layout, o)
 		}
 		if f := srcUnchanged(cop); f != nil {
